@@ -57,3 +57,13 @@ Definition lane_sel (lane : Z) (l : list Z) : Z := nth (Z.to_nat lane) l 0.
 Definition le_bytes4 (v : Z) : list Z :=
   let u := v mod 4294967296 in
   [u mod 256; (u / 256) mod 256; (u / 65536) mod 256; (u / 16777216) mod 256].
+
+(* `while cond(state) { body }` over a state and the bit reader (tools/rs2v_parser.py): recursion on fuel; the translator passes
+   unread bits + 1, enough whenever every iteration reads at least one bit *)
+From H263V Require Import model.Reader.
+Fixpoint while_loop {S : Type} (fuel : nat) (cond : S -> bool) (body : S -> reader -> res (S * reader)) (s : S) (r : reader)
+  : res (S * reader) :=
+  match fuel with
+  | O => OutOfFuel
+  | Datatypes.S f => if cond s then let* (s', r') := body s r in while_loop f cond body s' r' else Ok (s, r)
+  end.
